@@ -2,6 +2,8 @@ package gosym
 
 import (
 	"fmt"
+	"os"
+	"runtime/debug"
 	"sort"
 	"strings"
 
@@ -87,6 +89,8 @@ type State struct {
 	templateData  Value
 	inited        map[*ssa.Function]bool
 	pcSeen        map[string]bool
+	speculating   bool
+	merges        int
 }
 
 func (st *State) note(s string) {
@@ -178,6 +182,9 @@ func (st *State) assume(c *Term) {
 	if c.IsTrue() {
 		return
 	}
+	if c.size > 3000 && os.Getenv("VERIF_DEBUG_BIG") != "" {
+		fmt.Fprintf(os.Stderr, "BIG assume size=%d\n%s\n", c.size, debug.Stack())
+	}
 	key := c.SMT()
 	if st.pcSeen == nil {
 		st.pcSeen = map[string]bool{}
@@ -225,6 +232,9 @@ func (st *State) Branch(c *Term) bool {
 	c = st.simp(c)
 	if c.IsConst() {
 		return c.C == 1
+	}
+	if st.speculating {
+		panic(specAbort{})
 	}
 	if st.pos < len(st.prefix) {
 		d := st.prefix[st.pos]
@@ -282,6 +292,9 @@ func (st *State) Concretize(t *Term) uint64 {
 		}
 		if t.W == 0 {
 			return b2u(st.Branch(t))
+		}
+		if st.speculating {
+			panic(specAbort{})
 		}
 		if st.pos < len(st.prefix) {
 			d := st.prefix[st.pos]
